@@ -1,26 +1,29 @@
 #!/usr/bin/env bash
-# confirm_seeded.sh <worktree> <seeded-name> <test-crate>
-# In the scratch worktree: (1) demo with the patch must FAIL, (2) demo without the patch must PASS,
+# confirm_seeded.sh <confirm-worktree> <seeded-dir> <crate> <test|example>
+# In a scratch worktree: (1) demo with the patch must FAIL, (2) demo without the patch must PASS,
 # (3) full suite with the patch must match the baseline (only the always-failing test fails).
-# Writes <worktree>/_seeded/<name>/confirm.log and confirm.json.
+# Writes <seeded-dir>/confirm.log and confirm.json.
 set -u
-WT="$1"; NAME="$2"; CRATE="${3:-cairo-lang-compiler}"
-D="$WT/_seeded/$NAME"; LOG="$D/confirm.log"; : > "$LOG"
+WT="$1"; D="$2"; CRATE="${3:-cairo-lang-compiler}"; KIND="${4:-test}"
+export CARGO_PROFILE_DEV_DEBUG=0 CARGO_PROFILE_TEST_DEBUG=0 CARGO_INCREMENTAL=0 CARGO_NET_OFFLINE=true
+LOG="$D/confirm.log"; : > "$LOG"
 cd "$WT" || exit 2
-git checkout -q -- . 2>>"$LOG"
-T="seeded_demo_$(echo "$NAME" | tr -c 'a-zA-Z0-9' '_')"
-mkdir -p "crates/$CRATE/tests"
-cp "$D/demo.rs" "crates/$CRATE/tests/$T.rs"
+git checkout -q -- . 2>>"$LOG"; git clean -fdq crates 2>>"$LOG"
+T="seeded_demo_$(basename "$D" | tr -c 'a-zA-Z0-9' '_')"
+if [ "$KIND" = test ]; then SUB=tests; else SUB=examples; fi
+mkdir -p "crates/$CRATE/$SUB"; cp "$D/demo.rs" "crates/$CRATE/$SUB/$T.rs"
+run_demo() { if [ "$KIND" = test ]; then cargo test --offline -j 8 -p "$CRATE" --test "$T"; else cargo run --offline -j 8 -p "$CRATE" --example "$T"; fi; }
 git apply "$D/patch.diff" >>"$LOG" 2>&1 || { echo "patch does not apply" >>"$LOG"; echo '{"applies":false}' > "$D/confirm.json"; exit 1; }
-echo "== demo WITH patch" >>"$LOG"
-cargo test --offline -j 6 -p "$CRATE" --test "$T" >>"$LOG" 2>&1; with=$?
+echo "== demo WITH patch" >>"$LOG"; run_demo >>"$LOG" 2>&1; with=$?
 echo "== full suite WITH patch" >>"$LOG"
-cargo nextest run --workspace --no-fail-fast --offline --test-threads 6 --build-jobs 6 > "$D/suite.log" 2>&1
+cargo nextest run --workspace --no-fail-fast --offline --test-threads 8 --build-jobs 8 > "$D/suite.log" 2>&1
 grep -E "^\s+(FAIL|Summary)" "$D/suite.log" | sort -u >>"$LOG"
 fails=$(grep -E "^\s+FAIL " "$D/suite.log" | grep -v "$T" | sed 's/.*) //' | sort -u | tr '\n' ';')
+summary=$(grep -E "Summary" "$D/suite.log" | tail -1 | sed 's/^ *//')
+git apply -R "$D/patch.diff" >>"$LOG" 2>&1
+echo "== demo WITHOUT patch" >>"$LOG"; run_demo >>"$LOG" 2>&1; without=$?
+rm -f "crates/$CRATE/$SUB/$T.rs"; rmdir "crates/$CRATE/$SUB" 2>/dev/null
 git checkout -q -- . 2>>"$LOG"
-echo "== demo WITHOUT patch" >>"$LOG"
-cargo test --offline -j 6 -p "$CRATE" --test "$T" >>"$LOG" 2>&1; without=$?
-rm -f "crates/$CRATE/tests/$T.rs"; rmdir "crates/$CRATE/tests" 2>/dev/null
-printf '{"applies":true,"demo_exit_with_patch":%d,"demo_exit_without_patch":%d,"suite_failures_with_patch":"%s"}\n' "$with" "$without" "$fails" > "$D/confirm.json"
+printf '{"applies":true,"demo_exit_with_patch":%d,"demo_exit_without_patch":%d,"suite_summary":"%s","suite_failures_with_patch":"%s"}\n' "$with" "$without" "$summary" "$fails" > "$D/confirm.json"
+tail -c 300 "$D/suite.log" > /dev/null; rm -f "$D/suite.log"
 cat "$D/confirm.json"
